@@ -80,10 +80,14 @@ func HarnessC17_order() {
 	e1, e2 := nondetString("e1"), nondetString("e2")
 	a1, a2 := nondetString("a1"), nondetString("a2")
 	r1, r2 := nondetRegexp("r1"), nondetRegexp("r2")
-	kind := nondetIntRange("kind", 0, 3)
+	// kind 4: two elements introduced by one AllowElements call, then a rule for
+	// one of them (grouping of names into calls must not matter)
+	kind := nondetIntRange("kind", 0, 4)
 	verifNoteInt("kind", kind)
 	A := func(p *Policy) {
 		switch kind {
+		case 4:
+			p.AllowElements(e1, e2)
 		case 0:
 			p.AllowAttrs(a1).Matching(r1).OnElements(e1)
 		case 1:
@@ -104,6 +108,8 @@ func HarnessC17_order() {
 			p.AllowStyles(a2).Matching(r2).OnElements(e2)
 		case 3:
 			p.AllowAttrs(a2, a1).Matching(r2).OnElements(e1)
+		case 4:
+			p.AllowAttrs(a1).Matching(r1).OnElements(e1)
 		}
 	}
 	p1, p2 := NewPolicy(), NewPolicy()
@@ -115,7 +121,7 @@ func HarnessC17_order() {
 		for _, a := range []string{verifLower(a1), verifLower(a2)} {
 			for _, r := range []interface{}{r1, r2} {
 				switch kind {
-				case 0, 3:
+				case 0, 3, 4:
 					verifAssert(countRule(p1.elsAndAttrs[e][a], r) == countRule(p2.elsAndAttrs[e][a], r), "C17-order-element-rules")
 				case 1:
 					verifAssert(countRule(p1.globalAttrs[a], r) == countRule(p2.globalAttrs[a], r), "C17-order-global-rules")
